@@ -9,6 +9,7 @@ import DcmVerif.Model.Json
 import DcmVerif.Model.Extract
 import DcmVerif.Model.Group
 import DcmVerif.Model.Cli
+import DcmVerif.Model.Wrap
 /-! `dcmdriver`: one JSON object per input line, one JSON answer per line.  Values of metadata
 are opaque strings (the harness sends the canonical JSON text of each value), so equality in the
 model is string equality. -/
@@ -136,6 +137,37 @@ def exceptJson {β : Type} (f : β → Json) : Except Err β → Json
   | .ok b => Json.mkObj [("ok", f b)]
   | .error .valueError => Json.mkObj [("err", "ValueError")]
   | .error .other => Json.mkObj [("err", "Other")]
+
+/-! wrapper level (voxel arrays, affines) -/
+def getIntList (j : Json) : Except String (List Int) := do
+  (← j.getArr?).toList.mapM fun x => x.getInt?
+
+def getV3 (j : Json) : Except String Wrap.V3 := do
+  match ← getIntList j with
+  | [x, y, z] => pure ⟨x, y, z⟩
+  | _ => .error "bad vector"
+
+def getAff (j : Json) : Except String Wrap.Aff := do
+  match (← j.getArr?).toList with
+  | [a, b, c, t] => pure ⟨← getV3 a, ← getV3 b, ← getV3 c, ← getV3 t⟩
+  | _ => .error "bad affine"
+
+def getOptAff (j : Json) : Except String (Option Wrap.Aff) :=
+  if j.isNull then .ok none else (getAff j).map some
+
+def v3Json (v : Wrap.V3) : Json := Json.arr #[(v.x : Json), (v.y : Json), (v.z : Json)]
+def affJson (a : Wrap.Aff) : Json := Json.arr #[v3Json a.c0, v3Json a.c1, v3Json a.c2, v3Json a.t]
+
+def blankV : Int := -999999
+
+def getArr (j : Json) : Except String (Wrap.Arr Int) := do
+  let shape ← getNatList (← j.getObjVal? "shape")
+  let data ← getIntList (← j.getObjVal? "data")
+  pure (Wrap.Arr.ofList shape data blankV)
+
+def arrJson (a : Wrap.Arr Int) : Json :=
+  Json.mkObj [("shape", Json.arr (a.shape.map fun (n : Nat) => (n : Json)).toArray),
+    ("data", Json.arr (a.toList.map fun (n : Int) => (n : Json)).toArray)]
 
 def withDom (j : Json) (d : Bool) : Json := j.setObjVal! "dom" (Json.bool d)
 
@@ -324,6 +356,59 @@ def handle (j : Json) : Except String Json := do
     let res := go { files := files, dirty := true } ops []
     pure (Json.mkObj [("outs", Json.arr res.2.toArray), ("final", idsJson res.1.files),
       ("dirty", Json.bool res.1.dirty)])
+  | "wrap_split" =>
+    let a ← getArr (← j.getObjVal? "arr")
+    let dimArg ← getOptNat (← j.getObjVal? "dim")
+    let sd ← getOptNat (← j.getObjVal? "sd")
+    let hj ← j.getObjVal? "hdr"
+    let h : Wrap.Hdr := { s := ← getOptAff (← hj.getObjVal? "s"), q := ← getOptAff (← hj.getObjVal? "q"),
+                          base := ← getAff (← hj.getObjVal? "base") }
+    let dim? := match dimArg with
+      | some d => some d
+      | none => Wrap.defaultSplitDim a.shape.length sd
+    match dim? with
+    | none => pure (Json.mkObj [("err", "ValueError")])
+    | some dim =>
+      let pieces := Wrap.splitAll a dim
+      let affs := Wrap.splitAffs h dim pieces.length
+      pure (Json.mkObj [("dim", (dim : Json)), ("pieces", Json.arr (pieces.map arrJson).toArray),
+        ("affs", Json.arr (affs.map affJson).toArray),
+        ("best", Json.arr (affs.map fun a => affJson (Wrap.pieceHdr h a).best).toArray)])
+  | "wrap_merge" =>
+    let inputs ← (← (← j.getObjVal? "inputs").getArr?).toList.mapM getArr
+    let affs ← (← (← j.getObjVal? "affs").getArr?).toList.mapM getAff
+    let dimArg ← getOptNat (← j.getObjVal? "dim")
+    match inputs with
+    | [] => pure (Json.mkObj [("err", "IndexError")])
+    | first :: _ =>
+      let dim? := match dimArg with
+        | some d => some d
+        | none => Wrap.defaultMergeDim first.shape
+      match dim? with
+      | none => pure (Json.mkObj [("skip", "no default dim")])
+      | some dim =>
+        match Wrap.mergeData blankV inputs dim with
+        | .error .indexError => pure (Json.mkObj [("err", "IndexError")])
+        | .error .valueError => pure (Json.mkObj [("err", "ValueError")])
+        | .error .shapeMismatch => pure (Json.mkObj [("skip", "shape mismatch")])
+        | .ok r =>
+          if Wrap.mergeAccept affs dim then
+            match Wrap.mergeAff affs dim with
+            | some A => pure (Json.mkObj [("dim", (dim : Json)), ("arr", arrJson r), ("aff", affJson A)])
+            | none => pure (Json.mkObj [("err", "IndexError")])
+          else pure (Json.mkObj [("err", "ValueError")])
+  | "stack_fill" =>
+    let files ← (← (← j.getObjVal? "files").getArr?).toList.mapM getArr
+    let affs ← (← (← j.getObjVal? "affs").getArr?).toList.mapM getAff
+    let rows ← (← j.getObjVal? "rows").getNat?
+    let cols ← (← j.getObjVal? "cols").getNat?
+    let S ← (← j.getObjVal? "S").getNat?
+    let T ← (← j.getObjVal? "T").getNat?
+    let V ← (← j.getObjVal? "V").getNat?
+    let a := Wrap.stackData files blankV rows cols S T V
+    match Wrap.stackAff affs S with
+    | some A => pure (Json.mkObj [("arr", arrJson a), ("aff", affJson A)])
+    | none => pure (Json.mkObj [("err", "IndexError")])
   | "regex_filter" =>
     let excl ← getStrList (← j.getObjVal? "excl")
     let incl ← getStrList (← j.getObjVal? "incl")
